@@ -836,6 +836,9 @@ int reb_integrator_whfast_init(struct reb_simulation* const r){
     if (ri_whfast->N_allocated != N){
         ri_whfast->N_allocated = N;
         ri_whfast->p_jh = realloc(ri_whfast->p_jh,sizeof(struct reb_particle)*N);
+        // p_jh is written to binary files and compared byte by byte: do not leave members uninitialised.
+        // All coordinates are recalculated below (recalculate_coordinates_this_timestep).
+        memset(ri_whfast->p_jh, 0, sizeof(struct reb_particle)*N);
         ri_whfast->recalculate_coordinates_this_timestep = 1;
     }
     return 0;
